@@ -286,3 +286,34 @@ def repo_corpus(ctx, cfg, prop=None):
             ctx.add_violation("%s: %s | (a script of the repository's own tests) %s" % (prop, v["what"], lines[0]["text"].replace("\n", " ")[:300]), rp)
         else:
             raise Infra("candidate violation did not reproduce: %s" % v)
+
+
+def family_replay(ctx, fam, cfg, prop=None):
+    """every member of the exhaustive SemMC.tla family (printed by TLC) is run on the real interpreter and judged by TLC"""
+    from .checks_store import gen_lines
+    prop = prop or ctx.prop
+    gens = gen_lines(ctx, "SemMC", "SemMC_gen_%s_%s.cfg" % (fam, ctx.tier), "every member of the exhaustive '%s' family (program x balance sheet)" % fam, workers=8)
+    gp = os.path.join(ctx.work, "family_%s.ndjson" % fam)
+    open(gp, "w").write("\n".join(gens) + "\n")
+    tp = os.path.join(ctx.work, "family_%s_trace.ndjson" % fam)
+    summ = ctx.vh_json(["sem-gen", gp, tp], timeout=3600)
+    r = ctx.tlc_trace("MachineTrace", cfg, tp, label="TLC judges the real runs of the exhaustive '%s' family" % fam, timeout=7200)
+    ctx.cov["evaluations"] += summ["cases"]
+    ctx.cov["distinct_nontrivial"] += summ["distinct_shapes"]
+    ctx.cov["traces_validated_against_impl"] += summ["cases"]
+    ctx.cov["exhaustive_family_members_replayed"] = ctx.cov.get("exhaustive_family_members_replayed", 0) + summ["cases"]
+    ctx.cov["samples"] += (summ.get("samples") or [])[:1]
+    mine = [v for v in r["viols"] if v["prop"] == prop]
+    if mine:
+        cases = group_cases(tp)
+        seen = set()
+        for v in mine:
+            if v["what"] in seen or len(ctx.violations) >= 5:
+                continue
+            lines = cases[v["id"]]
+            hits, rp = confirm_sem(ctx, cfg, lines, prop)
+            if hits:
+                seen.add(v["what"])
+                ctx.add_violation("%s: %s | (member of the exhaustive family) script: %s | balances %s" % (prop, v["what"], lines[0]["text"].replace("\n", " ")[:300], lines[0]["bal"]), rp)
+            else:
+                raise Infra("candidate violation did not reproduce: %s" % v)
